@@ -99,6 +99,8 @@ fn hop_head(h: &Hop) -> Vec<u8> {
     }
     match h.bad {
         Some("missing") => {}
+        // no Location, but fields that look like one: they are not the Location
+        Some("missing+lookalikes") => head.extend(b"Content-Location: http://cdn.test/x\r\nX-Location: http://x.test/\r\nRefresh: 0; url=http://r.test/\r\nLink: <http://l.test/>; rel=canonical\r\n"),
         Some("nontext") => head.extend(b"Location: http://a.test/\xff\xfe\r\n"),
         Some("ipv6") => head.extend(b"Location: http://[::1/x\r\n"),
         Some("spacehost") => head.extend(b"Location: http://a b/x\r\n"),
@@ -399,17 +401,21 @@ fn bad_ref() -> Value {
     mk_ref("bad", "", "", 0, &[], "-")
 }
 
+static LONGQ: std::sync::OnceLock<String> = std::sync::OnceLock::new();
+
 fn random_ref(rng: &mut StdRng) -> Value {
+    // (a pre-signed download URL, a SAML / OAuth redirect: a few kilobytes of query are everyday)
+    let longq: &str = LONGQ.get_or_init(|| format!("X-Amz-Signature={}&state={}", "0123456789abcdef".repeat(40), "s".repeat(2600)));
     let schemes = ["http", "https"];
-    let hosts = ["a.test", "b.test", "sub.a.test", "127.0.0.1", "10.1.2.3", "api.test", "a.test.", "b.test."];
+    let hosts = ["a.test", "b.test", "sub.a.test", "127.0.0.1", "10.1.2.3", "api.test", "a.test.", "b.test.", "localhost", "app.localhost"];
     let ports = [0u64, 0, 8080, 80, 443];
-    let qs = ["-", "-", "k=1", "a=b&c=d", "ids=1,2,3&sort=asc", "next=1,https://c.test/landing"];
+    let qs = ["-", "-", "k=1", "a=b&c=d", "ids=1,2,3&sort=asc", "next=1,https://c.test/landing", longq, "-", "k=1", "a=b&c=d"];
     let seg_pool = ["p", "q", ".", "..", "long-segment_1", "", "x", "@52.37,4.89", "a;v=1"];
     let nseg = rng.gen_range(0..5);
     let mut segs: Vec<&str> = (0..nseg).map(|_| seg_pool[rng.gen_range(0..seg_pool.len())]).collect();
     match rng.gen_range(0..10) {
-        0 | 1 | 2 => mk_ref("abs", schemes[rng.gen_range(0..2)], hosts[rng.gen_range(0..8)], ports[rng.gen_range(0..5)], &segs, qs[rng.gen_range(0..6)]),
-        3 => mk_ref("net", "", hosts[rng.gen_range(0..8)], ports[rng.gen_range(0..5)], &segs, qs[rng.gen_range(0..6)]),
+        0 | 1 | 2 => mk_ref("abs", schemes[rng.gen_range(0..2)], hosts[rng.gen_range(0..10)], ports[rng.gen_range(0..5)], &segs, qs[rng.gen_range(0..10)]),
+        3 => mk_ref("net", "", hosts[rng.gen_range(0..10)], ports[rng.gen_range(0..5)], &segs, qs[rng.gen_range(0..10)]),
         4 | 5 => {
             // a path-absolute reference must not begin with "//" (that is a network-path reference)
             while segs.len() > 1 && segs[0].is_empty() {
@@ -418,7 +424,7 @@ fn random_ref(rng: &mut StdRng) -> Value {
             if segs.is_empty() {
                 segs.push("");
             }
-            mk_ref("abspath", "", "", 0, &segs, qs[rng.gen_range(0..6)])
+            mk_ref("abspath", "", "", 0, &segs, qs[rng.gen_range(0..10)])
         }
         6 | 7 => {
             // a relative path reference must not start with an empty segment (that would be a path-absolute
@@ -427,7 +433,7 @@ fn random_ref(rng: &mut StdRng) -> Value {
             if segs.is_empty() {
                 segs.push("rel");
             }
-            mk_ref("relpath", "", "", 0, &segs, qs[rng.gen_range(0..6)])
+            mk_ref("relpath", "", "", 0, &segs, qs[rng.gen_range(0..10)])
         }
         8 => mk_ref("query", "", "", 0, &[], ["z=9", "k=1"][rng.gen_range(0..2)]),
         _ => mk_ref("empty", "", "", 0, &[], "-"),
@@ -472,7 +478,7 @@ pub fn c13_14(o: &Opts, t: &mut Tracer, own_host: bool) -> Value {
     let nscripts = replay_redirect_scripts(o, t);
     let mut rng = rng_for(o.seed, 0xC13);
     let schemes = ["http", "https"];
-    let hosts = ["a.test", "b.test", "127.0.0.1", "[::1]"];
+    let hosts = ["a.test", "b.test", "127.0.0.1", "[::1]", "localhost", "app.localhost"];
     let methods = ["GET", "HEAD", "POST", "PUT", "DELETE", "OPTIONS", "PATCH", "TRACE", "CONNECT"];
     let statuses = [300u16, 301, 302, 303, 305, 307, 308, 399];
     // seeded random chains of 1..4 hops, ending in dead ends (bad Location, not followed) now and then
@@ -481,18 +487,18 @@ pub fn c13_14(o: &Opts, t: &mut Tracer, own_host: bool) -> Value {
         let oport: u64 = [0u64, 8080, 0][rng.gen_range(0..3)];
         let osegs: Vec<&str> = [vec![""], vec!["x", "y"], vec!["x", "y", ""], vec!["deep", "er", "path", "file.html"]][rng.gen_range(0..4)].clone();
         let oq: &str = ["-", "q=1"][rng.gen_range(0..2)];
-        let orig = json!({"scheme": schemes[rng.gen_range(0..2)], "host": hosts[[0usize, 1, 0, 1, 0, 2, 3][rng.gen_range(0..7)]], "port": oport, "segs": osegs, "q": oq});
+        let orig = json!({"scheme": schemes[rng.gen_range(0..2)], "host": hosts[[0usize, 1, 0, 1, 0, 2, 3, 4, 5][rng.gen_range(0..9)]], "port": oport, "segs": osegs, "q": oq});
         let nh = rng.gen_range(1..5);
         let mut hops = vec![];
         for k in 0..nh {
             let last = k + 1 == nh;
-            let bad = if last && i % 9 == 0 { Some(["missing", "nontext", "ipv6", "spacehost", "utf8path", "utf8host", "kelvin", "latin1", "longhi", "longhi1", "longhi12", "asciihi", "asciihi1", "asciihi12", "asciihi123", "asciihi1234"][(i / 9) % 16]) } else { None };
+            let bad = if last && i % 9 == 0 { Some(["missing", "nontext", "ipv6", "spacehost", "utf8path", "utf8host", "kelvin", "latin1", "longhi", "longhi1", "longhi12", "asciihi", "asciihi1", "asciihi12", "asciihi123", "asciihi1234", "missing+lookalikes"][(i / 9) % 17]) } else { None };
             hops.push(Hop {
                 status: statuses[rng.gen_range(0..8)],
                 r: if bad.is_some() { bad_ref() } else { random_ref(&mut rng) },
                 bad,
                 frag: rng.gen_bool(0.3),
-                decoys: if bad != Some("missing") && rng.gen_bool(0.2) { rng.gen_range(1..3) } else { 0 },
+                decoys: if bad != Some("missing") && bad != Some("missing+lookalikes") && rng.gen_bool(0.2) { rng.gen_range(1..3) } else { 0 },
                 with_body: rng.gen_bool(0.3),
             });
         }
@@ -515,6 +521,12 @@ pub fn c13_14(o: &Opts, t: &mut Tracer, own_host: bool) -> Value {
             run_chain(t, &a("https", "a.test", 0), "GET", same, &[h(abs("https", "b.test", 0)), h(absp.clone()), h(abs("https", "a.test", 0)), h(rel.clone())], "leave-and-return");
             run_chain(t, &a("https", "a.test", 0), "GET", same, &[h(abs("http", "a.test", 0)), h(rel.clone()), h(abs("https", "a.test", 0))], "downgrade-same-host");
             run_chain(t, &a("http", "a.test", 0), "GET", same, &[h(abs("https", "a.test", 0)), h(abs("http", "a.test", 8080)), h(absp.clone())], "upgrade-then-port");
+            // the rule knows no special host names
+            for name in ["localhost", "app.localhost", "intranet", "a.test"] {
+                run_chain(t, &a("https", name, 0), "GET", same, &[h(abs("http", name, 0)), h(absp.clone()), h(abs("https", name, 0)), h(abs("http", name, 8080))], "downgrade-same-host-by-name");
+            }
+            // a redirect that only appends a slash (directory canonicalisation), on the first host and after leaving it
+            run_chain(t, &a("http", "a.test", 0), "GET", same, &[h(mk_ref("abspath", "", "", 0, &["x", "y", ""], "-")), h(abs("http", "b.test", 0)), h(mk_ref("abspath", "", "", 0, &["t", ""], "-")), h(mk_ref("relpath", "", "", 0, &["sub"], "-")), h(mk_ref("relpath", "", "", 0, &["sub", ""], "-"))], "append-slash");
             run_chain(t, &a("http", "a.test", 8080), "HEAD", same, &[h(mk_ref("net", "", "b.test", 0, &["m"], "-")), h(mk_ref("net", "", "a.test", 8080, &[], "-")), h(mk_ref("query", "", "", 0, &[], "z=9"))], "scheme-relative");
             // address literals are hosts like any other: two different addresses are two different hosts
             run_chain(t, &a("https", "127.0.0.1", 0), "GET", same, &[h(abs("https", "10.1.2.3", 0)), h(absp.clone()), h(abs("https", "127.0.0.1", 0))], "ip-literal-leave-and-return");
@@ -555,6 +567,8 @@ pub fn c15(o: &Opts, t: &mut Tracer) -> Value {
                         1 => mk_ref("abspath", "", "", 0, &["x", "y"], "-"),
                         4 => mk_ref("relpath", "", "", 0, &["y"], "-"),
                         5 => mk_ref("empty", "", "", 0, &[], "-"),
+                        // the same resource over https (a blanket http -> https upgrade)
+                        6 => mk_ref("abs", "https", "a.test", 0, &["x", "y"], "-"),
                         _ => mk_ref("abspath", "", "", 0, &["next"], "-"),
                     };
                     if matches!((st as usize + n) % 7, 1 | 4 | 5) {
@@ -579,7 +593,7 @@ pub fn c15(o: &Opts, t: &mut Tracer) -> Value {
     // the redirect state is a matter of the status alone: a 3xx without any Location enters it too (and cannot be followed)
     for (k, st) in [300u16, 301, 302, 303, 305, 307, 308, 399, 304].iter().enumerate() {
         for with_body in [false, true] {
-            run_chain_opt(t, &orig, ["GET", "POST", "HEAD"][k % 3], k % 2 == 0, &[Hop { status: *st, r: bad_ref(), bad: Some("missing"), frag: false, decoys: 0, with_body }], "c15-no-location", ChainOpt::default());
+            run_chain_opt(t, &orig, ["GET", "POST", "HEAD"][k % 3], k % 2 == 0, &[Hop { status: *st, r: bad_ref(), bad: Some(if k % 2 == 0 { "missing" } else { "missing+lookalikes" }), frag: false, decoys: 0, with_body }], "c15-no-location", ChainOpt::default());
             n += 1;
         }
     }
